@@ -2,11 +2,11 @@
 appended to the rule in the evidence files."""
 
 MORE = {
-    "C01": "Also: permessage-deflate with drawn / enumerated window sizes and takeover flags (long-distance back-references), "
+    "C01": "Also: application sends (text, binary) while the k-th message is being handled; permessage-deflate with drawn / enumerated window sizes and takeover flags (long-distance back-references), "
            "TLS record model, through a proxy, one failing automatic Pong write, the application's close() during delivery, "
            "special code points as text / binary / close reason, an earlier connection, a second live connection, rejected "
            "application calls, option noise, DEBUG logging.",
-    "C02": "Also: payloads that look like the handshake terminator; a third, frame-aligned delivery for conforming sessions.",
+    "C02": "Also: replies that are no upgrade at all under every single cut and uniform chunk size; payloads that look like the handshake terminator; a third, frame-aligned delivery for conforming sessions.",
     "C03": "Also: close() with a reason of the wrong type (int, bool, list ...; any code, also None); unequal window sizes with payloads repeating beyond the smaller window; every ordered pair of length classes (and around an empty message) under three deflate configurations; "
            "the socket write of the last call interrupted (EINTR / EAGAIN / timeout / error) before or after half of the frame "
            "went out; DEBUG logging; special code points; every class of unpaired surrogate; a scheduled stage with concurrent writers.",
@@ -20,7 +20,7 @@ MORE = {
            "handlers slower than the poll interval; the simulated socket has no descriptor after close(); realistic clock epoch.",
     "C08": "Also: the write of the client's Close failing without breaking the transport; over TLS; with permessage-deflate; "
            "the server's Close crossing the application's close(); DEBUG logging.",
-    "C09": "Also: close() must have been CALLED on the socket of an established connection whose transport had not failed; permessage-deflate negotiated; a fixed battery (plain/deflate x ws/wss x direct/proxy x closing order); "
+    "C09": "Also: three sends after the event iterator has ended (must raise a WebSocketError); close() must have been CALLED on the socket of an established connection whose transport had not failed; permessage-deflate negotiated; a fixed battery (plain/deflate x ws/wss x direct/proxy x closing order); "
            "each selector-wait position also with every later wait failing.",
     "C10": "Also: spellings of the accepted extension (parameters, LWS around ; and =, trailing ;, folds); non-ASCII look-alike values and header names; repeated critical headers; malformed status lines; "
            "header blocks at the 16 KiB limit x cuts in the terminator; URL shapes with credentials and IPv6 literals; DEBUG logging.",
@@ -34,13 +34,13 @@ MORE = {
     "C14": "Also: Pings around messages of 64 KiB and more delivered in buffer-filling reads, auto_pong on and off; DEBUG logging; a violating frame behind the conforming stream; scheduled closer-vs-loop scenarios.",
     "C15": "Also: the server starting the closing handshake and never dropping the connection (the echo arms close_timeout); "
            "a Close write that takes virtual time; rejected close() calls; 'dropped for no reason'; realistic clock epoch.",
-    "C16": "Also: rejections with Retry-After / Location / Refresh / Keep-Alive and a Close 1013 'try again later', through "
+    "C16": "Also: a server that closes and then keeps the connection open for ever (only the close timeout ends the attempt); rejections with Retry-After / Location / Refresh / Keep-Alive and a Close 1013 'try again later', through "
            "the fake and the real driver; application calls during attempts; long outages.",
     "C17": "Also: chains through a proxy, over TLS, on objects the application configured (custom headers, sub-protocols, "
            "agent), after a corrupt / truncated compressed message with the same parameters negotiated again; held generators.",
-    "C18": "Also: permessage-deflate negotiated; Pings with non-text payloads between the fragments of fragmented messages; the k-th automatic Pong failing "
+    "C18": "Also: a scheduled stage - the event loop runs while another thread sits between the halves of its socket write; permessage-deflate negotiated; Pings with non-text payloads between the fragments of fragmented messages; the k-th automatic Pong failing "
            "to be written; a violating frame behind the burst; multi-byte text; DEBUG logging.",
-    "C19": "Also: proxy-related variables of the real process environment (NO_PROXY ...) with explicit mappings; "
+    "C19": "Also: exactly one Host line and no repeated header in the CONNECT request; proxy-related variables of the real process environment (NO_PROXY ...) with explicit mappings; "
            "percent-encoded credentials; IPv6 targets; malformed status lines; answers at the size limit x cuts in the "
            "terminator; an injected recv fault counts iff it struck before the whole answer had been handed over.",
 }
